@@ -45,37 +45,38 @@ package node
 //@   ensures result == bck(b, srcsel)
 //
 // ---- the compiler/VM interface: what the VM needs of an instruction not to hit an internal panic ---
-//@ pred isStr(v value.Type) bool := snd2(v.ToString())
-//@ pred fetchable(k uint64, a int, ds []value.Type) bool := k == bytecode.AddrStck || k == bytecode.AddrCls || k == bytecode.AddrLcl
-//@     || (k == bytecode.AddrDS && 0 <= a && a < len(ds)) || (k == bytecode.AddrGbl && 0 <= a && a < len(ds) && isStr(ds[a]))
-//@ pred isBinary(op bytecode.OpCode) bool := op == bytecode.ADD || op == bytecode.SUB || op == bytecode.MUL || op == bytecode.DIV || op == bytecode.MOD
+// (That a global operand's data-segment entry is a string - the variable's name - is not part of the
+// predicate: only Name.byteCode emits such operands, next to the NewString it appends.)
+//@ fun fetchable(k uint64, a int, nds int) bool := k == bytecode.AddrStck || k == bytecode.AddrCls || k == bytecode.AddrLcl
+//@     || ((k == bytecode.AddrDS || k == bytecode.AddrGbl) && 0 <= a && a < nds)
+//@ fun isBinary(op bytecode.OpCode) bool := op == bytecode.ADD || op == bytecode.SUB || op == bytecode.MUL || op == bytecode.DIV || op == bytecode.MOD
 //@     || op == bytecode.AND || op == bytecode.OR || op == bytecode.LT || op == bytecode.GT || op == bytecode.LE || op == bytecode.GE || op == bytecode.EQ || op == bytecode.NE
 //@     || op == bytecode.LSH || op == bytecode.RSH || op == bytecode.IX1 || op == bytecode.ARR
-//@ pred isUnary(op bytecode.OpCode) bool := op == bytecode.NOT || op == bytecode.FLIP || op == bytecode.LEN || op == bytecode.PUSH || op == bytecode.WRITE || op == bytecode.ATON
+//@ fun isUnary(op bytecode.OpCode) bool := op == bytecode.NOT || op == bytecode.FLIP || op == bytecode.LEN || op == bytecode.PUSH || op == bytecode.WRITE || op == bytecode.ATON
 //@     || op == bytecode.TOA || op == bytecode.EXIT || op == bytecode.YIELD || op == bytecode.FUNC || op == bytecode.CALL || op == bytecode.JMPF || op == bytecode.JMPT
 //@     || op == bytecode.ADDTMP || op == bytecode.SUBTMP || op == bytecode.MULTMP || op == bytecode.DIVTMP || op == bytecode.MODTMP || op == bytecode.ANDTMP || op == bytecode.ORTMP
 //@     || op == bytecode.LTTMP || op == bytecode.GTTMP || op == bytecode.LETMP || op == bytecode.GETMP || op == bytecode.EQTMP || op == bytecode.NETMP || op == bytecode.LSHTMP || op == bytecode.RSHTMP
-//@ pred isNullary(op bytecode.OpCode) bool := op == bytecode.NOP || op == bytecode.POP || op == bytecode.READ || op == bytecode.PUSHTMP || op == bytecode.NOTTMP || op == bytecode.FLIPTMP
+//@ fun isNullary(op bytecode.OpCode) bool := op == bytecode.NOP || op == bytecode.POP || op == bytecode.READ || op == bytecode.PUSHTMP || op == bytecode.NOTTMP || op == bytecode.FLIPTMP
 //@     || op == bytecode.LENTMP || op == bytecode.JMP || op == bytecode.CCONT || op == bytecode.DCONT || op == bytecode.RCONT || op == bytecode.SCONT
-//@ pred wfInstr(i bytecode.Type, ds []value.Type) bool :=
-//@        (isBinary(bcop(i)) && fetchable(bck(i, 0), bca(i, 0), ds) && fetchable(bck(i, 1), bca(i, 1), ds))
-//@     || (bcop(i) == bytecode.IX2 && fetchable(bck(i, 0), bca(i, 0), ds) && fetchable(bck(i, 1), bca(i, 1), ds) && fetchable(bck(i, 2), bca(i, 2), ds))
-//@     || (isUnary(bcop(i)) && fetchable(bck(i, 0), bca(i, 0), ds))
+//@ fun wfInstr(i bytecode.Type, nds int) bool :=
+//@        (isBinary(bcop(i)) && fetchable(bck(i, 0), bca(i, 0), nds) && fetchable(bck(i, 1), bca(i, 1), nds))
+//@     || (bcop(i) == bytecode.IX2 && fetchable(bck(i, 0), bca(i, 0), nds) && fetchable(bck(i, 1), bca(i, 1), nds) && fetchable(bck(i, 2), bca(i, 2), nds))
+//@     || (isUnary(bcop(i)) && fetchable(bck(i, 0), bca(i, 0), nds))
 //@     || isNullary(bcop(i))
-//@     || (bcop(i) == bytecode.RET && (fetchable(bck(i, 0), bca(i, 0), ds) || bck(i, 0) == bytecode.AddrInv))
-//@     || (bcop(i) == bytecode.INC && (bck(i, 0) == bytecode.AddrLcl || bck(i, 0) == bytecode.AddrGbl) && fetchable(bck(i, 0), bca(i, 0), ds))
-//@     || (bcop(i) == bytecode.MOV && (fetchable(bck(i, 0), bca(i, 0), ds) || bck(i, 0) == bytecode.AddrTmp)
-//@         && (bck(i, 1) == bytecode.AddrLcl || bck(i, 1) == bytecode.AddrTmp || (bck(i, 1) == bytecode.AddrGbl && fetchable(bck(i, 1), bca(i, 1), ds))))
+//@     || (bcop(i) == bytecode.RET && (fetchable(bck(i, 0), bca(i, 0), nds) || bck(i, 0) == bytecode.AddrInv))
+//@     || (bcop(i) == bytecode.INC && (bck(i, 0) == bytecode.AddrLcl || bck(i, 0) == bytecode.AddrGbl) && fetchable(bck(i, 0), bca(i, 0), nds))
+//@     || (bcop(i) == bytecode.MOV && (fetchable(bck(i, 0), bca(i, 0), nds) || bck(i, 0) == bytecode.AddrTmp)
+//@         && (bck(i, 1) == bytecode.AddrLcl || bck(i, 1) == bytecode.AddrTmp || (bck(i, 1) == bytecode.AddrGbl && fetchable(bck(i, 1), bca(i, 1), nds))))
 //
 // ---- K: the contract every byteCode implementation is proved against ---------------------------
 //@ pred crOK(cr compResult) bool := cr.CS != nil && cr.DS != nil && cr.Dbg != nil && *cr.Dbg != nil
 //@ pred csKept(cr compResult) bool := len(*cr.CS) >= old(len(*cr.CS)) && (forall i :: 0 <= i && i < old(len(*cr.CS)) ==> (*cr.CS)[i] == old((*cr.CS)[i]))
 //@ pred dsKept(cr compResult) bool := len(*cr.DS) >= old(len(*cr.DS)) && (forall i :: 0 <= i && i < old(len(*cr.DS)) ==> (*cr.DS)[i] == old((*cr.DS)[i]))
-//@ pred csNewWF(cr compResult) bool := forall i :: old(len(*cr.CS)) <= i && i < len(*cr.CS) ==> wfInstr((*cr.CS)[i], *cr.DS)
+//@ pred csNewWF(cr compResult) bool := forall i :: old(len(*cr.CS)) <= i && i < len(*cr.CS) ==> wfInstr((*cr.CS)[i], len(*cr.DS))
 // The returned operand descriptor: only field srcsel is set; it is never an immediate; a temp-register
 // result only where the caller can take one; anything else can be fetched by the VM as it stands.
-//@ pred descOnly(r bytecode.Type, sel int) bool := bcop(r) == 0 && (sel != 0 ==> bck(r, 0) == 0 && bca(r, 0) == 0) && (sel != 1 ==> bck(r, 1) == 0 && bca(r, 1) == 0) && (sel != 2 ==> bck(r, 2) == 0 && bca(r, 2) == 0)
-//@ pred operandOK(r bytecode.Type, sel int, ds []value.Type) bool := bck(r, sel) == bytecode.AddrInv || bck(r, sel) == bytecode.AddrTmp || fetchable(bck(r, sel), bca(r, sel), ds)
+//@ fun descOnly(r bytecode.Type, sel int) bool := bcop(r) == 0 && (sel != 0 ==> bck(r, 0) == 0 && bca(r, 0) == 0) && (sel != 1 ==> bck(r, 1) == 0 && bca(r, 1) == 0) && (sel != 2 ==> bck(r, 2) == 0 && bca(r, 2) == 0)
+//@ fun operandOK(r bytecode.Type, sel int, nds int) bool := bck(r, sel) == bytecode.AddrInv || bck(r, sel) == bytecode.AddrTmp || fetchable(bck(r, sel), bca(r, sel), nds)
 // AST well-formedness (class typing of the tree): expression slots hold expression nodes. wfAST is a
 // recursive predicate; each method states its one-level unfolding as a definitional assumption.
 // That the parser (and STRewrite) only build such trees is assumed (DESIGN.md section 6).
@@ -94,7 +95,7 @@ package node
 //@   modifies *cr.CS, allelems(*cr.CS), *cr.DS, allelems(*cr.DS), mapof(*cr.Dbg)
 //@   ensures[K2_code]  csKept(cr) && csNewWF(cr)
 //@   ensures[K2_data]  dsKept(cr) && crOK(cr)
-//@   ensures[K1_desc]  descOnly(result, srcsel) && operandOK(result, srcsel, *cr.DS) && bck(result, srcsel) != bytecode.AddrImm
+//@   ensures[K1_desc]  descOnly(result, srcsel) && operandOK(result, srcsel, len(*cr.DS)) && bck(result, srcsel) != bytecode.AddrImm
 //@   ensures[K1_expr]  isExpr(self) ==> bck(result, srcsel) != bytecode.AddrInv
 //@   ensures[K1_tmp]   bck(result, srcsel) == bytecode.AddrTmp ==> !fl.Data().ForbidTemp && (fl.Data().OpDepth > 0 || fl.Data().AcceptTemp || fl.Data().Discard)
 //
